@@ -64,13 +64,31 @@ package packaging
 //@   invariant 0: called(collectVersions) && (forall k in 0..rangeindex+1 :: packageInfo.Versions[k].Package != nil)
 //@   ensures every_listed_version_is_loaded: result1 == nil ==> called(collectVersions) && (forall k in 0..len(result0.Versions) :: result0.Versions[k].Package != nil)
 
+// C10/C11: the settings of a manifest are checked when it is loaded and again after `-c key=value` overrides were
+// applied (an override can empty the namespace or an output directory; generators given such a package crashed or
+// wrote part of the output before failing). A package that passes the check has a namespace and, for every target it
+// configures, an output directory.
+//@ func (*PackageInfo).checkSettings
+//@   property C10,C11,C08,C09
+//@   requires p != nil && errorSink != nil
+//@   ensures a_missing_namespace_is_an_error: p.Namespace == "" ==> len(errorSink.Errors) > old(len(errorSink.Errors))
+//@   ensures an_empty_output_directory_is_an_error: (p.Json != nil && p.Json.OutputDir == "") || (p.Cpp != nil && p.Cpp.SourcesOutputDir == "") || (p.Python != nil && p.Python.OutputDir == "") || (p.Matlab != nil && p.Matlab.OutputDir == "") ==> len(errorSink.Errors) > old(len(errorSink.Errors))
+//@   ensures errors_are_only_added: len(errorSink.Errors) >= old(len(errorSink.Errors))
+//@   invariant 0: len(errorSink.Errors) >= old(len(errorSink.Errors)) && (p.Namespace == "" ==> len(errorSink.Errors) > old(len(errorSink.Errors)))
+//@   iteration 0: a_version_cannot_be_labelled_current: ver.Label == "Current" ==> len(errorSink.Errors) > old(len(errorSink.Errors))
+//@   iteration 0: a_version_needs_a_label: ver.Label == "" ==> len(errorSink.Errors) > old(len(errorSink.Errors))
+//@ func (*PackageInfo).CheckSettings
+//@   property C10,C11
+//@   requires p != nil
+//@   ensures an_accepted_package_has_a_namespace: result == nil ==> p.Namespace != ""
+//@   ensures an_accepted_package_has_output_directories: result == nil ==> (p.Json != nil ==> p.Json.OutputDir != "") && (p.Cpp != nil ==> p.Cpp.SourcesOutputDir != "") && (p.Python != nil ==> p.Python.OutputDir != "") && (p.Matlab != nil ==> p.Matlab.OutputDir != "")
+
 // C08: version labels become the members of the generated C++ `enum class Version`, next to the member `Current`
 // that names the model itself: a previous version cannot be labelled `Current` (two enumerators of one name).
+// (the label rules are iteration clauses of checkSettings, which validate and CheckSettings both run)
 //@ func (*PackageInfo).validate
 //@   property C08,C09
 //@   requires p != nil
-//@   iteration 0: a_version_cannot_be_labelled_current: ver.Label == "Current" ==> len(errorSink.Errors) > old(len(errorSink.Errors))
-//@   iteration 0: a_version_needs_a_label: ver.Label == "" ==> len(errorSink.Errors) > old(len(errorSink.Errors))
 
 // ---- C10: the manifest reader is input-facing: no nil dereference for any manifest bytes ------------------------
 //@ sweep C10 file pkg/packaging/packageinfo.go
